@@ -294,6 +294,7 @@ def NumKind (k : IsoKind) : Prop := k = .IntegerLiteral ∨ k = .ErrorNumberLite
 
 theorem expDigits_kind (r : List Chr) (n : Nat) : NumKind (expDigits r n).1 := by
   unfold expDigits
+  simp only
   split
   · split <;> simp [NumKind]
   · simp [NumKind]
@@ -334,22 +335,182 @@ theorem intTail_kind (r : List Chr) (n : Nat) : NumKind (intTail r n).1 := by
       · exact expHead_kind _ _
       · split <;> simp [NumKind]
 
+theorem kind_of_eq {p : IsoKind × Nat} {k : IsoKind} {n : Nat} (hp : NumKind p.1) (h : p = (k, n)) : NumKind k := by
+  subst h; exact hp
+
 theorem numberPre_kind (cs : List Chr) (k : IsoKind) (n : Nat) (h : numberPre cs = some (k, n)) : NumKind k := by
   unfold numberPre at h
   simp only at h
   split at h
   · split at h
     · simp only [Option.some.injEq] at h
-      rw [← h]; exact intTail_kind _ _
+      exact kind_of_eq (intTail_kind _ _) h
     · split at h
       · split at h
         · split at h
           · simp at h
           · simp only [Option.some.injEq] at h
-            rw [← h]; exact intTail_kind _ _
+            exact kind_of_eq (intTail_kind _ _) h
         · simp only [Option.some.injEq, Prod.mk.injEq] at h
           rw [← h.1]; simp [NumKind]
       · simp at h
   · simp at h
+
+/-! ## the main lexer: where a `StringLiteral` / `BlockStringLiteral` token comes from -/
+
+theorem isoRules_string : ∀ r ∈ isoRules, r.kind = .StringLiteral → r.re = .chr 34 ∧ r.cb = some "lex_string" := by
+  intro r hr hk
+  simp only [isoRules, List.mem_cons, List.mem_nil_iff, or_false] at hr
+  rcases hr with rfl | rfl | rfl | rfl | rfl | rfl | rfl | rfl | rfl | rfl | rfl | rfl | rfl | rfl | rfl | rfl | rfl | rfl | rfl | rfl | rfl <;> simp_all
+
+theorem isoRules_block : ∀ r ∈ isoRules, r.kind = .BlockStringLiteral →
+    r.re = .seq (.chr 34) (.seq (.chr 34) (.chr 34)) ∧ r.cb = some "lex_block_string" := by
+  intro r hr hk
+  simp only [isoRules, List.mem_cons, List.mem_nil_iff, or_false] at hr
+  rcases hr with rfl | rfl | rfl | rfl | rfl | rfl | rfl | rfl | rfl | rfl | rfl | rfl | rfl | rfl | rfl | rfl | rfl | rfl | rfl | rfl | rfl <;> simp_all
+
+/-- a `StringLiteral` token is `"`, `j` further characters, `"` -/
+theorem isoStep_string (cs : List Chr) (pos : Nat) (t : Tok IsoKind)
+    (h : (stepNE isoLexer cs pos).1 = some t) (hk : t.kind = .StringLiteral) :
+    ∃ d rest j e rest', cs = d :: rest ∧ d.cp = 34 ∧ rest.drop j = e :: rest' ∧ e.cp = 34 ∧
+      t.s = pos ∧ t.e = pos + width (cs.take (j + 2)) := by
+  unfold stepNE at h
+  simp only [isoLexer] at h
+  cases hpre : numberPre cs with
+  | some p =>
+    obtain ⟨k, n⟩ := p
+    rw [hpre] at h
+    simp only [Option.some.injEq] at h
+    subst h
+    have := numberPre_kind cs k n hpre
+    simp only [mkTok] at hk
+    subst hk
+    simp [NumKind] at this
+  | none =>
+    rw [hpre] at h
+    simp only at h
+    cases hb : bestMatch isoRules cs with
+    | none =>
+      rw [hb] at h
+      simp only [Option.some.injEq] at h
+      subst h
+      simp [mkTok, isoError] at hk
+    | some p =>
+      obtain ⟨r, n0⟩ := p
+      rw [hb] at h
+      simp only at h
+      obtain ⟨hm, hl⟩ := bestMatch_mem _ _ _ _ hb
+      cases hcb : r.cb.bind isoCbs with
+      | none =>
+        rw [hcb] at h
+        simp only at h
+        split at h
+        · simp at h
+        · simp only [Option.some.injEq] at h
+          subst h
+          simp only [mkTok] at hk
+          have := (isoRules_string r hm hk).2
+          rw [this] at hcb
+          simp [isoCbs] at hcb
+      | some cb =>
+        rw [hcb] at h
+        simp only [Option.some.injEq] at h
+        subst h
+        simp only [mkTok] at hk ⊢
+        have hok : (cb (cs.drop (norm n0))).1 = true ∧ r.kind = .StringLiteral := by
+          by_cases hc : (cb (cs.drop (norm n0))).1 = true
+          · simp only [hc, if_true] at hk; exact ⟨hc, hk⟩
+          · simp only [hc] at hk; simp [isoError] at hk
+        obtain ⟨hre, hname⟩ := isoRules_string r hm hok.2
+        rw [hre] at hl
+        obtain ⟨rfl, d, rest, hcs, hd⟩ := matchLen_chr _ _ _ hl
+        rw [hname] at hcb
+        simp only [Option.bind, isoCbs, if_true, Option.some.injEq] at hcb
+        subst hcb
+        have hnorm : norm 1 = 1 := by simp [norm]
+        rw [hnorm] at hok ⊢
+        subst hcs
+        simp only [List.drop_succ_cons, List.drop_zero] at hok ⊢
+        have hloop : lexStringLoop rest.length rest 0 = (true, (lexStringCb rest).2) := by
+          have : (lexStringCb rest) = lexStringLoop rest.length rest 0 := rfl
+          rw [← this]
+          exact Prod.ext hok.1 rfl
+        obtain ⟨j, e, rest', h1, h2, h3⟩ := lexStringLoop_true _ _ _ _ hloop
+        refine ⟨d, rest, j, e, rest', rfl, hd, h2, h3, ?_, ?_⟩
+        · trivial
+        · have : 1 + (lexStringCb rest).2 = j + 2 := by omega
+          rw [this]
+
+/-- a `BlockStringLiteral` token is `"""`, `j` further characters, `"""` -/
+theorem isoStep_block (cs : List Chr) (pos : Nat) (t : Tok IsoKind)
+    (h : (stepNE isoLexer cs pos).1 = some t) (hk : t.kind = .BlockStringLiteral) :
+    ∃ a b c rest j x y z rest', cs = a :: b :: c :: rest ∧ a.cp = 34 ∧ b.cp = 34 ∧ c.cp = 34 ∧
+      rest.drop j = x :: y :: z :: rest' ∧ x.cp = 34 ∧ y.cp = 34 ∧ z.cp = 34 ∧
+      t.s = pos ∧ t.e = pos + width (cs.take (j + 6)) := by
+  unfold stepNE at h
+  simp only [isoLexer] at h
+  cases hpre : numberPre cs with
+  | some p =>
+    obtain ⟨k, n⟩ := p
+    rw [hpre] at h
+    simp only [Option.some.injEq] at h
+    subst h
+    have := numberPre_kind cs k n hpre
+    simp only [mkTok] at hk
+    subst hk
+    simp [NumKind] at this
+  | none =>
+    rw [hpre] at h
+    simp only at h
+    cases hb : bestMatch isoRules cs with
+    | none =>
+      rw [hb] at h
+      simp only [Option.some.injEq] at h
+      subst h
+      simp [mkTok, isoError] at hk
+    | some p =>
+      obtain ⟨r, n0⟩ := p
+      rw [hb] at h
+      simp only at h
+      obtain ⟨hm, hl⟩ := bestMatch_mem _ _ _ _ hb
+      cases hcb : r.cb.bind isoCbs with
+      | none =>
+        rw [hcb] at h
+        simp only at h
+        split at h
+        · simp at h
+        · simp only [Option.some.injEq] at h
+          subst h
+          simp only [mkTok] at hk
+          have := (isoRules_block r hm hk).2
+          rw [this] at hcb
+          simp [isoCbs] at hcb
+      | some cb =>
+        rw [hcb] at h
+        simp only [Option.some.injEq] at h
+        subst h
+        simp only [mkTok] at hk ⊢
+        have hok : (cb (cs.drop (norm n0))).1 = true ∧ r.kind = .BlockStringLiteral := by
+          by_cases hc : (cb (cs.drop (norm n0))).1 = true
+          · simp only [hc, if_true] at hk; exact ⟨hc, hk⟩
+          · simp only [hc] at hk; simp [isoError] at hk
+        obtain ⟨hre, hname⟩ := isoRules_block r hm hok.2
+        rw [hre] at hl
+        obtain ⟨rfl, a, b, c, rest, hcs, ha, hb', hc⟩ := matchLen_quote3 _ _ hl
+        rw [hname] at hcb
+        simp [Option.bind, isoCbs] at hcb
+        subst hcb
+        have hnorm : norm 3 = 3 := by simp [norm]
+        rw [hnorm] at hok ⊢
+        subst hcs
+        simp only [List.drop_succ_cons, List.drop_zero] at hok ⊢
+        have hloop : lexBlockLoop rest.length rest 0 = (true, (lexBlockCb rest).2) := by
+          have : (lexBlockCb rest) = lexBlockLoop rest.length rest 0 := rfl
+          rw [← this]
+          exact Prod.ext hok.1 rfl
+        obtain ⟨j, x, y, z, rest', h1, h2, h3, h4, h5⟩ := lexBlockLoop_true _ _ _ _ hloop
+        refine ⟨a, b, c, rest, j, x, y, z, rest', rfl, ha, hb', hc, h2, h3, h4, h5, trivial, ?_⟩
+        have : 3 + (lexBlockCb rest).2 = j + 6 := by omega
+        rw [this]
 
 end IsoVerif.IsoLex
